@@ -245,6 +245,10 @@ class RuleAttributeCondition(RuleProcessingCondition):
                 f"Unsupported type '{type(value)}' in rule attribute condition {str(self)}."
             )
 
+        if self.op not in self.op_methods:  # membership operators need a list
+            raise SigmaConfigurationError(
+                f"Invalid operation '{self.op}' for comparison of a single value in rule attribute condition {str(self)}."
+            )
         try:
             # The comparison operator (not the dunder method of the left operand) also considers the
             # reflected operation: int.__eq__(5, 5.0) is NotImplemented, but 5 == 5.0 holds.
